@@ -165,9 +165,12 @@ func solveOne(e *Exec, o *Obligation, workDir string, timeoutS int) {
 	// trivial cases without a solver
 	if !o.ExpectSat && (o.Goal.S == "true" || o.PC.S == "false") {
 		o.Status, o.Solver = "unsat", "trivial"
+		if o.Kind == "fresh" || o.Kind == "modifies" {
+			o.Solver = "provenance"
+		}
 		return
 	}
-	if o.Kind == "modifies" && o.PC.S == "true" {
+	if (o.Kind == "modifies" || o.Kind == "fresh") && o.PC.S == "true" && o.Goal.S == "false" {
 		o.Status, o.Solver = "sat", "provenance"
 		return
 	}
